@@ -356,6 +356,8 @@ fn fixed_sets(rng: &mut Rng, n_adv: usize) -> Vec<Set> {
 ///  * an extreme-pair matrix (i128::MIN, -1 as i64 and as i128, 0, 1, i128::MAX, u128::MAX,
 ///    i64::MIN — all 64 pairs) through every binary arithmetic / comparison instruction and unary
 ///    minus, from the context and against literals;
+///  * strings printed with `{:?}` inside arrays / maps / as map keys over the characters std escapes
+///    as `\u{..}` and their neighbours;
 ///  * filters that must FAIL (wrong receiver kind, wrong kwarg type) at every filter position:
 ///    `{{ v | f }}`, filter sections, set-block chains (first and later position, set and
 ///    set_global), inside blocks, component bodies, includes and loops.
@@ -465,6 +467,33 @@ fn directed_sets() -> Vec<Set> {
         }
     }
     both_ae(&mut out, "directed.extreme_pairs", templates, entries, runs);
+
+    // ---- strings printed with `{:?}` (inside arrays and maps, as map keys): which characters std
+    // writes as `\u{..}` — controls, NO-BREAK SPACE, SOFT HYPHEN, combining marks, the Unicode space
+    // separators and format characters — and their unescaped neighbours
+    // (found by `./check C08 thorough`: `[p2 for …]` over a capture holding U+00A0, measured by
+    // `filter length`)
+    {
+        let cps: [u32; 36] = [
+            0x1f, 0x20, 0x7e, 0x7f, 0x85, 0x9f, 0xa0, 0xa1, 0xac, 0xad, 0xae, 0xe9, 0x2ff, 0x300, 0x301, 0x36f, 0x370, 0x1680, 0x1ffe, 0x2000, 0x2003, 0x200b,
+            0x200f, 0x2010, 0x2027, 0x2028, 0x202f, 0x2030, 0x205f, 0x206f, 0x2070, 0x3000, 0x3001, 0x65e5, 0xfeff, 0x1f980,
+        ];
+        let all: String = cps.iter().filter(|c| **c != 0x22 && **c != 0x5c).filter_map(|c| char::from_u32(*c)).filter(|c| *c as u32 >= 0x20 && *c as u32 != 0x7f).collect();
+        let templates = vec![
+            ("lit".to_string(), format!("[{{{{ [\"{all}\", \"a{}\"] }}}}|{{{{ {{\"k\": \"{all}\"}} }}}}]", '\u{a0}')),
+            ("var".to_string(), "{{ [a] }}|{{ {\"k\": a} }}|{{ [[a], {\"q\": [a, 1]}] }}|{{ b }}|{% filter length %}{{ [a] }}{{ b }}{% endfilter %}".to_string()),
+            ("cap".to_string(), "{% filter upper %}{% set_global p | lower %}\u{85}\u{a0}\n{{ true }}{% endset %}{% filter length %}{{ [p for e in [1, 2]] }}{% endfilter %}|{{ [p, a] }}{% endfilter %}".to_string()),
+        ];
+        let entries = vec![e("lit", None), e("var", None), e("cap", None)];
+        let mut runs = Vec::new();
+        for cp in cps.iter() {
+            let Some(ch) = char::from_u32(*cp) else { continue };
+            let sv = format!("x{ch}y");
+            let h = hex(sv.as_bytes());
+            runs.push(Run { ctx: vec![("a".into(), format!("s:{h}")), ("b".into(), format!("M2 s:{h} S:{h} s:6b A1 s:{h}"))], global: vec![], kind: "adversarial" });
+        }
+        both_ae(&mut out, "directed.debug_escapes", templates, entries, runs);
+    }
 
     // ---- filters that must fail, at every filter position
     // (filter call, a receiver expression of a kind it also refuses in `{{ v | f }}` position)
